@@ -1,8 +1,10 @@
 ----------------------------- MODULE CurveLemma -----------------------------
 (***************************************************************************)
 (* C01, unbounded: the +/-1 remainder correction of the vAMM's pricing      *)
-(* functions makes the untouched reserve the *ceiling* of k*D / (moved      *)
-(* reserve), hence the scaled product floor(x*y/D) never decreases.         *)
+(* functions makes the untouched reserve the *ceiling* of P / (moved        *)
+(* reserve), P = x*y the exact product used as the invariant (fix F12),     *)
+(* hence neither x*y nor the scaled product floor(x*y/D) ever decreases,    *)
+(* and at an unchanged base reserve the quote reserve cannot be lower.      *)
 (* Proved with TLAPS for all naturals (the bounded models and the traces    *)
 (* check the same fact on the transcribed operators / the real contracts).  *)
 (***************************************************************************)
@@ -57,47 +59,73 @@ LEMMA DivMono == \A a \in Nat, k \in Nat, d \in Nat \ {0} : a >= k * d => a \div
 <1> QED
   BY <1>4, <1>5, <1>6, <1>7
 
-(* new untouched reserve after a swap that moves the other reserve to m > 0 *)
-Corrected(k, D, m) == IF (k * D) % m # 0 THEN ((k * D) \div m) + 1 ELSE (k * D) \div m
+(* new untouched reserve after a swap that moves the other reserve to m > 0; P = x*y before *)
+Corrected(P, m) == IF P % m # 0 THEN (P \div m) + 1 ELSE P \div m
 
 THEOREM CeilTimes ==
-  \A k \in Nat, D \in Nat \ {0}, m \in Nat \ {0} : m * Corrected(k, D, m) >= k * D
-<1> SUFFICES ASSUME NEW k \in Nat, NEW D \in Nat \ {0}, NEW m \in Nat \ {0}
-             PROVE  m * Corrected(k, D, m) >= k * D
+  \A P \in Nat, m \in Nat \ {0} : m * Corrected(P, m) >= P
+<1> SUFFICES ASSUME NEW P \in Nat, NEW m \in Nat \ {0}
+             PROVE  m * Corrected(P, m) >= P
   OBVIOUS
-<1> DEFINE a == k * D
-<1>1. a \in Nat
-  OBVIOUS
-<1>2. /\ a = m * (a \div m) + (a % m)
-      /\ a % m \in 0..(m - 1)
-      /\ a \div m \in Nat
-  BY <1>1, DivMod
-<1>3. CASE a % m = 0
+<1>2. /\ P = m * (P \div m) + (P % m)
+      /\ P % m \in 0..(m - 1)
+      /\ P \div m \in Nat
+  BY DivMod
+<1>3. CASE P % m = 0
   BY <1>2, <1>3 DEF Corrected
-<1>4. CASE a % m # 0
-  <2>1. Corrected(k, D, m) = (a \div m) + 1
+<1>4. CASE P % m # 0
+  <2>1. Corrected(P, m) = (P \div m) + 1
     BY <1>4 DEF Corrected
-  <2>2. m * ((a \div m) + 1) = m * (a \div m) + m
+  <2>2. m * ((P \div m) + 1) = m * (P \div m) + m
     BY <1>2
-  <2>3. m * (a \div m) + m >= m * (a \div m) + (a % m)
+  <2>3. m * (P \div m) + m >= m * (P \div m) + (P % m)
     BY <1>2
   <2> QED
     BY <1>2, <2>1, <2>2, <2>3
 <1> QED
   BY <1>3, <1>4
 
-(* the scaled product after the swap is at least the invariant k used to price it *)
+(* the scaled product floor(x*y/D) after the swap is at least what it was before *)
 THEOREM KMonotone ==
-  \A k \in Nat, D \in Nat \ {0}, m \in Nat \ {0} : (m * Corrected(k, D, m)) \div D >= k
-<1> SUFFICES ASSUME NEW k \in Nat, NEW D \in Nat \ {0}, NEW m \in Nat \ {0}
-             PROVE  (m * Corrected(k, D, m)) \div D >= k
+  \A P \in Nat, D \in Nat \ {0}, m \in Nat \ {0} : (m * Corrected(P, m)) \div D >= P \div D
+<1> SUFFICES ASSUME NEW P \in Nat, NEW D \in Nat \ {0}, NEW m \in Nat \ {0}
+             PROVE  (m * Corrected(P, m)) \div D >= P \div D
   OBVIOUS
-<1>1. m * Corrected(k, D, m) >= k * D
+<1>1. m * Corrected(P, m) >= P
   BY CeilTimes
-<1>2. Corrected(k, D, m) \in Nat
+<1>2. Corrected(P, m) \in Nat
   BY DivMod DEF Corrected
-<1>3. m * Corrected(k, D, m) \in Nat
+<1>3. m * Corrected(P, m) \in Nat
   BY <1>2
+<1>4. /\ P = D * (P \div D) + (P % D)
+      /\ P % D \in 0..(D - 1)
+      /\ P \div D \in Nat
+  BY DivMod
+<1>5. P >= (P \div D) * D
+  BY <1>4, Z3
+<1>6. m * Corrected(P, m) >= (P \div D) * D
+  BY <1>1, <1>3, <1>4, <1>5
 <1> QED
-  BY <1>1, <1>3, DivMono
+  BY <1>3, <1>4, <1>6, DivMono
+
+(* returning to an earlier base reserve y never finds less quote: if x*y <= x2*y then x <= x2 *)
+THEOREM ReturnNoLoss ==
+  \A x \in Nat, x2 \in Nat, y \in Nat \ {0} : x * y <= x2 * y => x <= x2
+<1> SUFFICES ASSUME NEW x \in Nat, NEW x2 \in Nat, NEW y \in Nat \ {0}, x * y <= x2 * y, x > x2
+             PROVE  FALSE
+  OBVIOUS
+<1>1. x2 + 1 <= x
+  OBVIOUS
+<1>2. y * (x2 + 1) <= y * x
+  BY <1>1, MulMono
+<1>3. y * (x2 + 1) = y * x2 + y
+  BY Z3
+<1>4. y * x = x * y /\ y * x2 = x2 * y
+  BY Z3
+<1>5. x * y \in Nat /\ x2 * y \in Nat /\ y \in Nat /\ y >= 1
+  BY Z3
+<1>6. x2 * y + y <= x * y
+  BY <1>2, <1>3, <1>4, <1>5
+<1> QED
+  BY <1>5, <1>6
 =============================================================================
